@@ -558,9 +558,9 @@ def _run(tier):
     maximal = sorted(k for k in keys if k not in prefixes)
     ended = [k for k in maximal if k[1][-1][0] == 'Q']
     cut = [k for k in maximal if k[1][-1][0] != 'Q']
-    if not quick and len(cut) > 12000:
+    if not quick and len(cut) > 30000:
         rnd.shuffle(cut)
-        cut = sorted(cut[:12000])
+        cut = sorted(cut[:30000])
     chosen = ended + cut
 
     n_real_replays = 0
